@@ -153,9 +153,16 @@ def run(tier, seed, replay=None):
                 else:
                     aid = int(w.split(":")[0])
                     exp_parts.append((q, str(aid), None if q == "(listfile)" else content(aid, q)))
-            got_items, listed = a.split(" | ")
+            got_items, listed, selfdesc = (a.split(" | ") + ["", ""])[:3]
             ok = True
             why = ""
+            info, _, flags = selfdesc.partition(";")
+            if flags:
+                ok = False
+                why = "the chain contradicts itself: %s" % flags
+            elif l.startswith("chain seq") and [x.split(":")[0] for x in info.split(",") if x] != [str(x) for x in in_chain]:
+                ok = False
+                why = "get_chain_info lists the archives as %s, the model's order is %s" % (info, in_chain)
             for (q, w, c), item in zip(exp_parts, got_items.split(",")):
                 _, rest = item.split(">")
                 gw, gc, has = rest.split(":")
